@@ -488,7 +488,7 @@ PROPS["C18"] = {
 PROPS["C07"] = {
     "manifest": {
         "level_text": ("Stateful, model-based testing of filesets: generated interleavings of setfile rewrites (in place / by rename, relative "
-                       "and absolute lines, names of tables, of a non-table and of a missing file), clock advances (harness-owned monotonic "
+                       "and absolute lines, names of tables, of a non-table and of a missing file), removal and restoration of table files, clock advances (harness-owned monotonic "
                        "clock), reload / reload_now, dup with other filters / intervals, open / advance / close iterators of every kind, "
                        "complete reads and handle destruction. A tolerant model tracks which setfile versions a correct implementation may "
                        "have loaded (reloads that are permitted but not required widen the set, every observation narrows it; an empty set "
@@ -502,7 +502,7 @@ PROPS["C07"] = {
     "rule": ("case = (initial setfile, interval of the first handle, <= ~40 ops). Non-trivial: the history contains a setfile change "
              "followed by a forced reload through one handle and a read through another handle, or an iterator held open across a "
              "reload_now. Distinct by FNV-1a."),
-    "expect_tags": ["dup", "setfile_rewritten", "change_then_reload_via_one_handle_then_read_via_another",
+    "expect_tags": ["dup", "setfile_rewritten", "table_file_removed_or_restored", "change_then_reload_via_one_handle_then_read_via_another",
                     "iterator_open_across_reload_now", "handle_destroyed_midway"],
     "assumptions": TABLE_ASSUME,
     "tiers": {
